@@ -50,6 +50,7 @@ type c05Kind struct {
 	keywords  bool // elements are bare break / continue statements (located by keyword, not by name)
 	blocks    bool // elements are bare blocks "{ }" (two lines each: located by their braces)
 	rawStr    bool // elements are raw string literals that span four lines (with an empty line inside)
+	outer     bool // elements contain delimiters of their own: the container is the first "{" / last "}" of the file
 	// openDecs returns the decoration list that sits directly after the opening delimiter of the
 	// container (BlockStmt.Lbrace, CompositeLit.Lbrace, CallExpr.Lparen, CaseClause.Colon ...)
 	openDecs func(f *dst.File) *dst.Decorations
@@ -85,7 +86,7 @@ var c05Kinds = []c05Kind{
 			forms := []string{"%s()", "%s++", "go %s()", "defer %s()", "%s := 1", "var %s int", "%s <- 1", "%s = 2", "%s--"}
 			s := "package p\n\nfunc f() {\n"
 			for i, e := range names(n) {
-				s += "\t" + fmt.Sprintf(forms[i%len(forms)], e) + "\n"
+				s += "\t" + fmt.Sprintf(forms[(i+n*4)%len(forms)], e) + "\n"
 			}
 			return s + "}\n"
 		},
@@ -152,6 +153,25 @@ var c05Kinds = []c05Kind{
 			s := "package p\n\nvar v = []int{\n"
 			for _, e := range names(n) {
 				s += "\t" + e + ",\n"
+			}
+			return s + "}\n"
+		},
+		elems: func(f *dst.File, n int) []dst.Node {
+			var out []dst.Node
+			for _, e := range f.Decls[0].(*dst.GenDecl).Specs[0].(*dst.ValueSpec).Values[0].(*dst.CompositeLit).Elts {
+				out = append(out, e)
+			}
+			return out
+		}},
+	{name: "composite-literal-mixed-expressions", edges: true, exprList: true, outer: true,
+		// elements of every expression node type that fits on one line: each node type renders its
+		// own Before/After spacing
+		tmpl: func(n int) string {
+			forms := []string{"%s[int, string]", "%s[int]", "%s.x", "%s()", "&%s", "*%s", "-%s", "%s + 1", "(%s)", "%s[1:2]", "%s.(T)", "[]int{%s}", "%s{}",
+				"1: %s", "<-%s", "[2]%s{}", "map[%s]int{}", "func(%s int) {}", "%s[a, b]{}", "struct{ %s int }{}", "interface{ %s() }(nil)", "(chan %s)(nil)", "%s[1:2:3]", "*%s[int, string]{}"}
+			s := "package p\n\nvar v = []any{\n"
+			for i, e := range names(n) {
+				s += "\t" + fmt.Sprintf(forms[(i+n*5)%len(forms)], e) + ",\n"
 			}
 			return s + "}\n"
 		},
@@ -312,7 +332,7 @@ func init() {
 			k.openDecs = func(f *dst.File) *dst.Decorations {
 				return &f.Decls[0].(*dst.FuncDecl).Body.List[0].(*dst.SwitchStmt).Body.List[0].(*dst.CaseClause).Decs.Colon
 			}
-		case "composite-literal":
+		case "composite-literal", "composite-literal-mixed-expressions":
 			k.openDecs = func(f *dst.File) *dst.Decorations { return &valueOf(f, 0).(*dst.CompositeLit).Decs.Lbrace }
 		case "call-arguments":
 			k.openDecs = func(f *dst.File) *dst.Decorations { return &valueOf(f, 0).(*dst.CallExpr).Decs.Lparen }
@@ -522,6 +542,17 @@ func c05Case(c *fw.Ctx, kind c05Kind, n int, pattern string, sp []dst.SpaceType,
 				if closeLine != 0 {
 					break
 				}
+			}
+		}
+	}
+	if kind.outer {
+		openLine, closeLine = 0, 0
+		for _, t := range toks {
+			if t.Tok == token.LBRACE && openLine == 0 {
+				openLine = t.Line
+			}
+			if t.Tok == token.RBRACE {
+				closeLine = t.Line
 			}
 		}
 	}
